@@ -26,7 +26,8 @@ LEVEL_TEXT = ("Decided: the structural conditions without which values cannot re
               "nodes are cleaned before each transfer, chains run in opposite directions, each item that "
               "reaches the solver has a link from its origin, new items are registered with the active "
               "auto-link scope and scopes do not nest, link classes are complete and type-consistent, nodes "
-              "are sized before they are indexed.  Not decided: that for a particular run-time link graph "
+              "are sized before they are indexed, the merge rule of a node element (an empty slot takes any value, a "
+              "filled one only a larger non-zero value) holds on sampled value pairs.  Not decided: that for a particular run-time link graph "
               "every value lands on the right item (needs the graph), numeric slack values.")
 LEVEL_NOTE = "Trusted: clang 14 front end/CFG, tool/mpx.cc, the rule module."
 DESIGN_REF = "DESIGN.md section 4, C04"
